@@ -447,7 +447,7 @@ fn gen_aggcut(r: &mut Rng) -> Value {
         rows.push(vec![Val::I(i as i64), a, d, f, s, Val::I((i % 3) as i64)]);
     }
     let col = |name: &str, cty: ColTy, unique: bool| ColSpec { name: name.into(), cty, null_pct: if unique { 0 } else { 10 }, boundary: false, special: false, unique };
-    let t = TableSpec { name: "t0".into(), cols: vec![col("id", ColTy::I64, true), col("a", ColTy::I64, false), col("d", ColTy::Date, false),
+    let t = TableSpec { cluster: None, name: "t0".into(), cols: vec![col("id", ColTy::I64, true), col("a", ColTy::I64, false), col("d", ColTy::Date, false),
         col("f", ColTy::F64, false), col("s", ColTy::Str, false), col("g", ColTy::I64, false)], rows, cuts: vec![n] };
     let cat = Catalog { tables: vec![t] };
     // columns: 1 a, 2 d, 3 f, 4 s, 5 g
